@@ -65,6 +65,15 @@ def factory(repo):
     if i < 0: raise TranslationError('createCovFunc not found')
     b = s.index('{', i); e = match(s, b, '{', '}')
     body = s[b:e]
+    if 'case' not in body:
+        # the switch may live in a file-local helper that createCovFunc calls (and then checks isConsistent() on the result)
+        m = re.search(r'(\w+)\s*\(\s*type\s*,\s*ctxt\s*\)', body)
+        if not m: raise TranslationError('createCovFunc: no switch and no helper call')
+        helper = m.group(1)
+        k = re.search(r'static\s+ACovFunc\s*\*\s*%s\s*\([^)]*\)\s*\{' % helper, s)
+        if not k: raise TranslationError('createCovFunc: helper %s not found' % helper)
+        b = k.end() - 1; e = match(s, b, '{', '}')
+        body = s[b:e]
     out = []
     for line in body.split('\n'):
         if 'case' not in line: continue
@@ -78,7 +87,12 @@ def factory(repo):
     b = s.index('{', j); e = match(s, b, '{', '}')
     norm = re.sub(r'\s+', '', s[b:e + 1])
     expect = '{if((int)cova->getMaxNDim()>0&&(int)ctxt.getNDim()>(int)cova->getMaxNDim())returnfalse;returntrue;}'
-    if norm != expect: raise TranslationError('_isValid is not the expected dimension test: ' + norm)
+    # same test, followed by the compatibility of the structure with the type of space of the context
+    expect2 = ('{if((int)cova->getMaxNDim()>0&&(int)ctxt.getNDim()>(int)cova->getMaxNDim())returnfalse;'
+               'if(ctxt.getSpace()->getType()==ESpaceType::RN&&!cova->getCompatibleSpaceR())returnfalse;'
+               'if(ctxt.getSpace()->getType()==ESpaceType::SN&&!cova->getCompatibleSpaceS())returnfalse;returntrue;}')
+    if norm not in (expect, expect2): raise TranslationError('_isValid is not the expected dimension test: ' + norm)
+    factory.space_checked = (norm == expect2)
     return out
 
 def literal(tok):
@@ -392,7 +406,7 @@ def translate(repo):
         else:
             e['haseval'] = False; e['hash'] = 0; e['shape'] = 'none'; e['support'] = None
         entries.append(e)
-    return render(entries, gens, isc), {'entries': entries, 'gens': dict(gens),
+    return render(entries, gens, isc), {'entries': entries, 'gens': dict(gens), 'isvalid_checks_space': getattr(factory, 'space_checked', False),
                                         'isConsistent': re.sub(r'\s+', ' ', isc)}
 
 def coq_str(s): return '"' + s.replace('"', '""') + '"'
